@@ -22,10 +22,10 @@ import (
 // quick: the committed graph tla/Timer.dot.gz; thorough: TLC is run afresh and its graph is used.
 
 type tlaState struct {
-	Div, Tima, Tma, Tac   int
-	Prev, TimaW, TmaW     bool
-	Cancelled, Irq        bool
-	Phase                 string
+	Div, Tima, Tma, Tac int
+	Prev, TimaW, TmaW   bool
+	Cancelled, Irq      bool
+	Phase               string
 }
 
 type tlcEdge struct {
